@@ -118,7 +118,7 @@ def _callsite(e):
 
 def _guard(fn):
     """-> (result class, exception name, callsite, value)"""
-    signal.setitimer(signal.ITIMER_REAL, 10.0)
+    signal.setitimer(signal.ITIMER_VIRTUAL, 10.0)
     try:
         return "ok", "", "", fn()
     except Timeout:
@@ -128,7 +128,7 @@ def _guard(fn):
     except BaseException as e:  # noqa
         return project.errclass(e), type(e).__name__, _callsite(e), None
     finally:
-        signal.setitimer(signal.ITIMER_REAL, 0)
+        signal.setitimer(signal.ITIMER_VIRTUAL, 0)
 
 
 _IODIR = None
@@ -231,7 +231,7 @@ OUT_KEY = ("res", "s", "tfres", "tf", "tfterm", "lres", "ls", "lv", "r2res", "r2
 
 def run_group(job):
     gfapy = _load_gfapy()
-    signal.signal(signal.SIGALRM, _alarm)
+    signal.signal(signal.SIGVTALRM, _alarm)
     outs, index, runs = [], {}, []
     for ci, cfg in enumerate(job["cfgs"]):
         o = run_one(gfapy, job["lines"], job["ver"], cfg)
